@@ -4,13 +4,15 @@
 // controlled scheduler; a crash image (copy of blobstor tree, metabase file, write-cache tree) is
 // taken at EVERY scheduling point (each lock / channel / blobstor call / metabase call boundary,
 // i.e. every step boundary between blob write, cache write, metadata update, cache removal and blob
-// removal). Each distinct image is checked offline: every address the metabase reports as
-// available must be readable in full, identical, from the blobstor tree or the write-cache tree.
+// removal). Each distinct on-disk state is judged in place (live metabase handle, files on disk):
+// every address the metabase reports as available must be readable in full, identical, from the
+// blobstor tree or the write-cache tree. Every state judged inconsistent, and the final state of
+// every execution, is also copied, reopened offline (fresh metabase + FSTree handles) and judged
+// again; the two verdicts must agree.
 package main
 
 import (
 	"bytes"
-	"crypto/sha256"
 	"fmt"
 	"os"
 	"path/filepath"
@@ -21,6 +23,7 @@ import (
 	"github.com/nspcc-dev/bbolt"
 	"github.com/nspcc-dev/neofs-node/pkg/local_object_storage/blobstor/fstree"
 	meta "github.com/nspcc-dev/neofs-node/pkg/local_object_storage/metabase"
+	"github.com/nspcc-dev/neofs-node/pkg/local_object_storage/writecache"
 	"github.com/nspcc-dev/neofs-node/verif/lib/ev"
 	"github.com/nspcc-dev/neofs-node/verif/lib/sched"
 	ss "github.com/nspcc-dev/neofs-node/verif/worlds/schedshard"
@@ -34,9 +37,10 @@ const (
 	objB = 1 // big (above the flush batch threshold)
 	tsA  = 2 // tombstone for A
 	lkB  = 3 // lock for B
+	objC = 4 // small: with A it forms a flush batch (flushBatch / PutBatch path)
 )
 
-var sizes = []int{4, 60}
+var sizes = map[int]int{objA: 4, objB: 60, objC: 5}
 
 type opT struct {
 	Name string
@@ -48,6 +52,7 @@ func ops() []opT {
 	return []opT{
 		{"Put(A)", func(w *ss.World) { w.Sh.Put(ss.Obj(objA, sizes[objA]), nil) }},
 		{"Put(B)", func(w *ss.World) { w.Sh.Put(ss.Obj(objB, sizes[objB]), nil) }},
+		{"Put(C)", func(w *ss.World) { w.Sh.Put(ss.Obj(objC, sizes[objC]), nil) }},
 		{"Put(T->A)", func(w *ss.World) { w.Sh.Put(ss.Tombstone(tsA, objA, 0), nil) }},
 		{"MarkGarbage(A)", func(w *ss.World) { w.Sh.MarkGarbage(ss.Cnr, ids(objA), meta.GarbageMarkDefault) }},
 		{"MarkRedundant(B)", func(w *ss.World) { w.Sh.MarkGarbage(ss.Cnr, ids(objB), meta.GarbageMarkRedundant) }},
@@ -60,9 +65,39 @@ func ops() []opT {
 }
 
 type image struct {
-	Dir   string
-	Label string
-	After []string // operations started so far
+	Digest string
+	Dir    string
+	Label  string
+	After  []string // operations started so far
+	Live   int      // verdict of the in-place check: index of the first unreadable available object, -1 if none
+}
+
+// liveCheck judges the current on-disk state in place: every address the (live) metabase reports
+// as available must be readable, identical, from the blobstor tree or the write-cache tree.
+func liveCheck(w *ss.World, res *result) int {
+	w.Quiet = true
+	defer func() { w.Quiet = false }()
+	db := w.Sh.VerifSSMetabase()
+	wcT := fstree.New(fstree.WithPath(w.WCDir()), fstree.WithDepth(1))
+	wcT.Open(true)
+	for i := 0; i <= objC; i++ {
+		ex, err := db.Exists(ss.Addr(i), false)
+		if err != nil || !ex {
+			continue
+		}
+		res.avail++
+		ok := false
+		for _, t := range []*fstree.FSTree{wcT, w.FST} {
+			if b, err := t.GetBytes(ss.Addr(i)); err == nil && bytes.Equal(b, blobs[i]) {
+				ok = true
+				break
+			}
+		}
+		if !ok {
+			return i
+		}
+	}
+	return -1
 }
 
 type result struct {
@@ -70,29 +105,50 @@ type result struct {
 	Images  []image
 	History []string
 	WC      bool
-	Points  int
-	checked int
-	avail   int
+	// closed concurrent scenario only
+	Concurrent, Reput         bool
+	FlushWrittenBeforeRemoval bool
+	Points                    int
+	checked                   int
+	reopened                  int
+	avail                     int
 }
 
 var blobs = func() map[int][]byte {
-	m := map[int][]byte{objA: ss.Obj(objA, sizes[objA]).Marshal(), objB: ss.Obj(objB, sizes[objB]).Marshal(), tsA: ss.Tombstone(tsA, objA, 0).Marshal(), lkB: ss.Lock(lkB, objB, 0).Marshal()}
+	m := map[int][]byte{objA: ss.Obj(objA, sizes[objA]).Marshal(), objB: ss.Obj(objB, sizes[objB]).Marshal(), tsA: ss.Tombstone(tsA, objA, 0).Marshal(), lkB: ss.Lock(lkB, objB, 0).Marshal(), objC: ss.Obj(objC, sizes[objC]).Marshal()}
 	return m
 }()
 
-func treeDigest(root string) string {
-	h := sha256.New()
-	filepath.Walk(root, func(p string, info os.FileInfo, err error) error {
-		if err != nil || info.IsDir() {
-			return nil
+// stateKey identifies the on-disk state exactly and cheaply: the id of the last committed metabase
+// transaction (the bbolt file changes only at a commit) and the (path, size) listing of the blobstor
+// and write-cache trees (every address of the alphabet has one fixed content, so a file differs
+// from an earlier one at the same path only while it is partially written, i.e. in size).
+func stateKey(w *ss.World) string {
+	w.Quiet = true
+	tx := w.Sh.VerifSSMetabase().VerifSSTxID()
+	w.Quiet = false
+	var b strings.Builder
+	fmt.Fprintf(&b, "tx%d", tx)
+	for _, root := range []string{w.BlobDir(), w.WCDir()} {
+		l1, _ := os.ReadDir(root)
+		for _, e := range l1 {
+			if !e.IsDir() {
+				if fi, err := e.Info(); err == nil {
+					fmt.Fprintf(&b, "|%s:%d", e.Name(), fi.Size())
+				}
+				continue
+			}
+			l2, _ := os.ReadDir(filepath.Join(root, e.Name()))
+			fmt.Fprintf(&b, "|%s/", e.Name())
+			for _, f := range l2 {
+				if fi, err := f.Info(); err == nil {
+					fmt.Fprintf(&b, "%s:%d,", f.Name(), fi.Size())
+				}
+			}
 		}
-		rel, _ := filepath.Rel(root, p)
-		b, _ := os.ReadFile(p)
-		fmt.Fprintf(h, "%s|%d|", rel, len(b))
-		h.Write(b)
-		return nil
-	})
-	return string(h.Sum(nil))
+		b.WriteString("#")
+	}
+	return b.String()
 }
 
 func scenario(wc bool, depth int, pre int) sched.Scenario {
@@ -118,14 +174,19 @@ func scenario(wc bool, depth int, pre int) sched.Scenario {
 				return
 			}
 			res.Points++
-			dg := treeDigest(live)
+			dg := stateKey(w)
 			if seen[dg] {
 				return
 			}
 			seen[dg] = true
-			d := filepath.Join(root, fmt.Sprintf("img%d", len(res.Images)))
-			ss.CopyTree(live, d)
-			res.Images = append(res.Images, image{d, label, append([]string(nil), res.History...)})
+			// fast path: the state is judged in place (live metabase handle + the files on disk); only a
+			// state the fast path finds inconsistent, and the final one, are copied and reopened offline
+			res.checked++
+			if i := liveCheck(w, res); i >= 0 || label == "quiescent" {
+				d := filepath.Join(root, fmt.Sprintf("img%d", len(res.Images)))
+				ss.CopyTree(live, d)
+				res.Images = append(res.Images, image{dg, d, label, append([]string(nil), res.History...), i})
+			}
 		}
 		s.OnPoint = func(l string) { snap("t" + fmt.Sprint(s.Cur().ID) + ":" + l) }
 		w.OnStep = func(l string) { snap("step:" + l) }
@@ -160,8 +221,12 @@ func scenario(wc bool, depth int, pre int) sched.Scenario {
 			return "deadlock", strings.Join(x.Blocked, ";")
 		}
 		for _, im := range res.Images {
-			res.checked++
-			if fp, what := checkImage(im, res); fp != "" {
+			res.reopened++
+			fp, what := checkImage(im, res)
+			if (fp != "") != (im.Live >= 0) {
+				return "harness:in-place-and-reopened-verdicts-differ", fmt.Sprintf("history %v, crash at %q: in place %d, reopened %q", res.History, im.Label, im.Live, fp)
+			}
+			if fp != "" {
 				return fp, fmt.Sprintf("history %v, crash at %q (after starting %v): %s", res.History, im.Label, im.After, what)
 			}
 		}
@@ -181,10 +246,96 @@ func scenario(wc bool, depth int, pre int) sched.Scenario {
 		if res == nil {
 			return nil
 		}
-		return map[string]int{"crash_points": res.Points, "distinct_crash_images_checked": res.checked, "available_objects_read_back": res.avail}
+		return map[string]int{"crash_points": res.Points, "distinct_crash_images_checked": res.checked, "crash_images_copied_and_reopened_offline": res.reopened, "available_objects_read_back": res.avail}
 	}
 	return sched.Scenario{Name: name, Opt: sched.Options{PreemptBound: pre, FaultBound: depth, FreeBound: -1, MaxSteps: 8000,
 		Setup: func(s *sched.S) { s.TimerFires = 2 }}, Body: body, Check: check, Outcome: outcome, Counters: counters}
+}
+
+// concurrent is the closed flush/removal/new-upload scenario: A and C (small, one flush batch) are
+// put; a second client removes A once the flusher has marked it (or once the batch is being
+// written, when early is false) and uploads A again while the batch is being written. Crash
+// images are taken at every scheduling point of every schedule within the bounds.
+func concurrent(early bool, pre int) sched.Scenario {
+	name := fmt.Sprintf("put A,C | remove A (batch %s) + upload A again while the flusher writes", map[bool]string{true: "formed", false: "being written"}[early])
+	body := func(s *sched.S) any {
+		root, err := os.MkdirTemp("/dev/shm", "verif-c15-")
+		if err != nil {
+			panic(err)
+		}
+		res := &result{Root: root, WC: true, Concurrent: true}
+		s.Result = res
+		live := filepath.Join(root, "live")
+		w, err := ss.New(s, live, ss.Opts{WriteCache: true, RmBatch: 10})
+		if err != nil {
+			panic(err)
+		}
+		defer w.Close()
+		seen := map[string]bool{}
+		blobWrites, blobWritesDone := 0, 0
+		snap := func(label string) {
+			res.Points++
+			dg := stateKey(w)
+			if seen[dg] {
+				return
+			}
+			seen[dg] = true
+			// fast path: the state is judged in place (live metabase handle + the files on disk); only a
+			// state the fast path finds inconsistent, and the final one, are copied and reopened offline
+			res.checked++
+			if i := liveCheck(w, res); i >= 0 || label == "quiescent" {
+				d := filepath.Join(root, fmt.Sprintf("img%d", len(res.Images)))
+				ss.CopyTree(live, d)
+				res.Images = append(res.Images, image{dg, d, label, append([]string(nil), res.History...), i})
+			}
+		}
+		s.OnPoint = func(l string) { snap("t" + fmt.Sprint(s.Cur().ID) + ":" + l) }
+		w.OnStep = func(l string) {
+			switch l {
+			case "blob.Put", "blob.PutBatch":
+				blobWrites++
+			case "blob.Put.done", "blob.PutBatch.done":
+				blobWritesDone++
+			case "blob.Delete":
+				res.FlushWrittenBeforeRemoval = blobWritesDone > 0
+			}
+			snap("step:" + l)
+		}
+		putsDone := false
+		s.Go("client0", false, func() {
+			res.History = append(res.History, "Put(A)")
+			w.Sh.Put(ss.Obj(objA, sizes[objA]), nil)
+			res.History = append(res.History, "Put(C)")
+			w.Sh.Put(ss.Obj(objC, sizes[objC]), nil)
+			putsDone = true
+		})
+		s.Go("client1", false, func() {
+			s.Block("wait puts", func() bool { return putsDone })
+			if early {
+				s.Block("wait marked", func() bool {
+					return writecache.VerifFlushMarked(w.Sh.VerifSSWriteCache(), ss.Addr(objA)) || s.TimerFires <= 0
+				})
+			} else {
+				s.Block("wait blob write", func() bool { return blobWrites > 0 || s.TimerFires <= 0 })
+			}
+			res.History = append(res.History, "Delete(A)")
+			w.Sh.Delete(ss.Cnr, []oid.ID{ss.OID(objA)})
+			if early {
+				s.Block("wait blob write", func() bool { return blobWrites > 0 || s.TimerFires <= 0 })
+			}
+			res.History = append(res.History, "Put(A)")
+			w.Sh.Put(ss.Obj(objA, sizes[objA]), nil)
+			res.Reput = true
+		})
+		s.AwaitQuiescence()
+		snap("quiescent")
+		s.OnPoint = nil
+		w.OnStep = nil
+		return res
+	}
+	sc := scenario(true, 0, pre) // oracle, outcome and counters are shared
+	return sched.Scenario{Name: name, Opt: sched.Options{PreemptBound: pre, FaultBound: 0, FreeBound: 1, MaxSteps: 8000,
+		Setup: func(s *sched.S) { s.TimerFires = 5 }}, Body: body, Check: sc.Check, Outcome: sc.Outcome, Counters: sc.Counters}
 }
 
 // checkImage opens the metabase of a crash image read-only and checks that every address it
@@ -205,7 +356,8 @@ func checkImage(im image, res *result) (string, string) {
 	wcT := fstree.New(fstree.WithPath(filepath.Join(im.Dir, "wc")), fstree.WithDepth(1))
 	blob.Open(true)
 	wcT.Open(true)
-	for i, want := range blobs {
+	for i := 0; i <= objC; i++ {
+		want := blobs[i]
 		ex, err := db.Exists(ss.Addr(i), false)
 		if err != nil || !ex {
 			continue
@@ -225,12 +377,21 @@ func checkImage(im image, res *result) (string, string) {
 			}
 		}
 		if !ok {
-			kind := map[int]string{objA: "regular-small", objB: "regular-big", tsA: "tombstone", lkB: "lock"}[i]
+			kind := map[int]string{objA: "regular-small", objB: "regular-big", tsA: "tombstone", lkB: "lock", objC: "regular-small"}[i]
 			last := "none"
 			if len(im.After) > 0 {
 				last = im.After[len(im.After)-1]
 			}
-			last = strings.NewReplacer("(A)", "", "(B)", "", "(T->A)", "-tombstone", "(Lock->B)", "-lock").Replace(last)
+			last = strings.NewReplacer("(A)", "", "(B)", "", "(C)", "", "(T->A)", "-tombstone", "(Lock->B)", "-lock").Replace(last)
+			if res.Concurrent {
+				// a loss that needs the concurrent new upload: name the mechanism, not the crash point
+				mech := "flusher-had-not-written-it-before-the-removal"
+				if res.FlushWrittenBeforeRemoval {
+					mech = "flusher-wrote-it-before-the-removal-and-dropped-the-new-cache-copy-afterwards"
+				}
+				return fmt.Sprintf("available-in-metadata-but-unreadable:%s:uploaded-again-after-removal-during-background-flush:%s", kind, mech),
+					fmt.Sprintf("object %d is reported available by the metabase but is in neither the blobstor nor the write-cache", i)
+			}
 			return fmt.Sprintf("available-in-metadata-but-unreadable:%s:crash-during-%s:write-cache=%v", kind, last, res.WC),
 				fmt.Sprintf("object %d is reported available by the metabase but is in neither the blobstor nor the write-cache", i)
 		}
@@ -241,14 +402,17 @@ func checkImage(im image, res *result) (string, string) {
 func main() {
 	r := ev.Start("C15", ev.FaultEnum)
 	depth := 3
+	scs := []sched.Scenario{scenario(true, depth, 0), scenario(false, depth, 0), concurrent(true, 1), concurrent(false, 1)}
 	if r.Thorough() {
+		// deeper bounds after the quick ones (the budget is shared per scenario, leftovers roll on)
 		depth = 4
+		deep := []sched.Scenario{scenario(true, depth, 0), scenario(false, depth, 0), scenario(true, 3, 1), concurrent(true, 2), concurrent(false, 2)}
+		for i := range deep {
+			deep[i].Name += " [deep]"
+		}
+		scs = append(scs, deep...)
 	}
-	scs := []sched.Scenario{scenario(true, depth, 0), scenario(false, depth, 0)}
-	if r.Thorough() {
-		scs = append(scs, scenario(true, 3, 1))
-	}
-	r.Rule(fmt.Sprintf("every history of <=%d operations over {Put(A small), Put(B big), Put(tombstone->A), MarkGarbage(A), MarkRedundant(B), Delete(A), Delete(B), Put(lock->B), GC pass, FlushWriteCache} with and without write-cache (default schedule; thorough also <=1 preemption for depth 3), a crash image at every scheduling point (lock, channel, blobstor call, metabase call) and after every operation; distinct images reopened and checked; non-trivial = distinct (write-cache, multiset of operations) classes", depth))
+	r.Rule(fmt.Sprintf("every history of <=%d operations over {Put(A small), Put(B big), Put(C small), Put(tombstone->A), MarkGarbage(A), MarkRedundant(B), Delete(A), Delete(B), Put(lock->B), GC pass, FlushWriteCache} with and without write-cache (default schedule; thorough also <=1 preemption for depth 3), a crash image at every scheduling point (lock, channel, blobstor call, metabase call) and after every operation; plus the closed concurrent scenarios (put A,C | remove A and upload it again while the background flusher handles the batch) under <=1 (thorough <=2) preemptions with a crash image at every point; distinct images reopened and checked; non-trivial = distinct (write-cache, multiset of operations) classes", depth))
 	r.Assume("process-crash model: the copied files are what the kernel holds at that point; a metabase call (one bbolt transaction) is atomic", "the write-cache FSTree and the blobstor FSTree write whole files (no combined files)")
 	sched.Main(r, scs, 0)
 }
